@@ -14,12 +14,18 @@ Tie K7 (binary, SSE type 1 and AVX2 type 1 = what valgrind can execute):
       keys = 8 key pairs) per (variant, algorithm, direction, length class);
   (c) model tie: the sequence of loads from the S-box tables (symbols from nm) must equal the
       table projection of the Coq model's public trace function (coqc, vm_compute).
-Search: (a) and (b) ARE the property's oracle on the real library; a broken proof obligation or
-      a model/binary mismatch in (c) is reported with no-failing-input-found when (a)/(b) are clean.
+Tie K7 (binary, native, ALL 7 host variants sse:f0,f1,f2 avx2:f0,f1 avx512:f0,f1):
+  (d) harness/k7_step.c single-steps the job (PTRACE_SINGLESTEP between two markers around
+      IMB_SUBMIT_JOB .. IMB_FLUSH_JOB) and records the instruction-address sequence and the effective
+      address of every memory operand (registers + an operand table made from objdump, checks/c19_step.py;
+      opmask values of masked vector accesses included); both digests must be identical for all keys
+      of a (variant, algorithm, direction, length class), single job and several jobs in flight.
+Search: (a), (b) and (d) ARE the property's oracle on the real library; a broken proof obligation or
+      a model/binary mismatch in (c) is reported with no-failing-input-found when they are clean.
 """
 import os, sys, json, re, time, subprocess, concurrent.futures as cf
 import xml.etree.ElementTree as ET
-from . import common
+from . import common, c19_step
 from .common import Rng, Result, log
 
 PID = "C19"
@@ -366,6 +372,50 @@ def build_tools():
     return exe, flt
 
 
+def build_step_tool():
+    exe = os.path.join(common.BUILD, "bin", "k7_step")
+    inc = os.path.join(common.HARNESS, "k7_leak.c")      # #included by k7_step.c
+    if os.path.exists(exe) and os.path.getmtime(exe) < os.path.getmtime(inc):
+        os.remove(exe)
+    return common.build_harness("k7_step")
+
+
+def step_images(sexe):
+    """operand tables of the images whose instructions are decoded: the library (image 0), libc (memcpy /
+    memset called by the library), the harness itself.  Cached on (path, mtime, size)."""
+    wd = WORK()
+    ldd = common.run(["ldd", sexe], env=common.lib_env(), check=True).stdout
+    m = re.search(r"libc\.so\.6 => (\S+)", ldd)
+    if not m:
+        raise RuntimeError("cannot locate libc: " + ldd)
+    info = {}
+    info["lib"] = c19_step.build_optab(SO(), os.path.join(wd, "optab_lib.bin"))
+    info["libc"] = c19_step.build_optab(m.group(1), os.path.join(wd, "optab_libc.bin"))
+    info["self"] = c19_step.build_optab(sexe, os.path.join(wd, "optab_self.bin"))
+    images = [("libIPSec_MB.so", os.path.join(wd, "optab_lib.bin")), ("libc.so.6", os.path.join(wd, "optab_libc.bin")),
+              ("SELF", os.path.join(wd, "optab_self.bin"))]
+    return images, info
+
+
+def step_violation(res, sexe, images, t, ev, seed, is_known):
+    """a task whose groups (same public class, different keys) gave different digests"""
+    ga, gb, fields = ev["diff"]
+    tag = c19_step.task_tag(t)
+    div = c19_step.first_divergence(sexe, os.path.realpath(SO()), t, ga, gb, images, WORK(), tag)
+    src = os.path.basename(str(div.get("source", "?")))
+    sig = "step:%s:%s:%s" % (t["variant"], t["algo"], src)
+    if is_known(sig):
+        return False
+    rp = {"property": PID, "tie": "d", "kind": "native single-step trace differs between two keys: key-dependent %s"
+          % {"branch": "branch", "address": "memory address"}.get(div.get("kind"), "trace"),
+          "variant": t["variant"], "algo": t["algo"], "dir": t["dir"], "len": t["len"], "off": t["off"], "batch": t["batch"],
+          "lines_a": div.get("lines_a"), "lines_b": div.get("lines_b"), "differing_fields": fields,
+          "first_divergence": {k: v for k, v in div.items() if k not in ("lines_a", "lines_b")},
+          "signature": sig, "seed": seed}
+    res.violation(rp, note="%s %s" % (sig, div.get("kind", "")), name="step_%s" % tag)
+    return True
+
+
 def rle_eq(a, b):
     return [list(x) for x in a] == [list(x) for x in b]
 
@@ -387,9 +437,17 @@ def main(tier, seed):
                            "Spec/DES.v, Spec/KASUMI.v, Spec/SNOW3G.v (validated against the library under C01/C02)",
                            "Struct/Leak.v is a hand-written source-shaped model; its correspondence with the BINARY is only sampled (K7): "
                            "valgrind 3.19 memcheck definedness tracking + lackey traces, harness/k7_leak.c, harness/k7_trace.c, nm/readelf/addr2line",
-                           "not modelled: stack/register traffic, job manager, AVX512 variants (valgrind cannot run them), "
-                           "micro-architectural leakage beyond branch outcomes and addresses"])
+                           "tie (d), all 7 host variants incl. AVX512 and the SHANI/GFNI types: Linux ptrace (PTRACE_SINGLESTEP, GETREGS, "
+                           "GETREGSET NT_X86_XSTATE), harness/k7_step.c, checks/c19_step.py (operand table from GNU objdump 2.40 -D -M intel: "
+                           "base/index/scale/disp, rip-relative, string, implicit stack, VSIB, opmask); effective addresses are COMPUTED from "
+                           "the registers, not observed on the bus",
+                           "not modelled in Coq: stack/register traffic, job manager, the AVX512 / GFNI / VAES kernels (their binary is covered "
+                           "by tie (d) on sampled keys only)",
+                           "not seen by any tie: micro-architectural leakage beyond branch outcomes and addresses (instruction latencies that "
+                           "depend on operand values, port contention, speculative execution), executed instructions whose memory operand the "
+                           "table could not decode (counted: step_undecoded_operand_steps, step_unknown_instruction_steps)"])
     exe, flt = build_tools()
+    sexe = build_step_tool()
     sy = lib_symbols()
     symfile = os.path.join(WORK(), "syms.txt")
     for j in range(8):   # the scans cover <size argument> elements of 4 resp. 2 bytes
@@ -428,6 +486,9 @@ def main(tier, seed):
             lines = [l for ci in cis for l in class_keys[ci]]
             jobs.append(("lk", arch, g, cis, lines))
 
+    # ---- (d) native single-step traces ------------------------------------------------------
+    stasks = c19_step.plan(rng, tier, common.EXPECTED_VARIANTS, key_variants, KEYLEN, IVLEN)
+
     # The library build directory is shared with other checks: if the .so is relinked while
     # valgrind runs, the symbol addresses no longer describe the executed image -> run again.
     def so_stamp():
@@ -439,10 +500,23 @@ def main(tier, seed):
         missing = write_symfile(sy, symfile)
         t_model0 = time.time()
         results = []
+        sresults = []
+        step_err = None
+        t_step = [None, None]
         with cf.ThreadPoolExecutor(max_workers=common.NCPU) as ex:
             futs = {}
-            # the model expectations are computed while valgrind runs
+            # operand tables (cached unless an image changed) and model expectations are computed while valgrind runs
+            fimg = ex.submit(step_images, sexe)
             fexp = ex.submit(model_expectations, classes)
+
+            def run_step_task(t):
+                images, _ = fimg.result()
+                if t_step[0] is None:
+                    t_step[0] = time.time()
+                r = c19_step.run_step(sexe, t["variant"], c19_step.task_lines(t), c19_step.task_tag(t), images, WORK(),
+                                      batch=t["batch"], timeout=1500 if tier == "quick" else 3000)
+                t_step[1] = time.time()
+                return r
             for j in sorted(jobs, key=lambda j: -len(j[4])):
                 if j[0] == "mc":
                     _, arch, batch, k, part = j
@@ -450,8 +524,18 @@ def main(tier, seed):
                 else:
                     _, arch, g, cis, lines = j
                     futs[ex.submit(run_lackey, arch, lines, "%s_%s_%d" % (arch, g[0], g[1]), symfile, exe, flt)] = j
+            sfuts = {ex.submit(run_step_task, t): t for t in sorted(stasks, key=lambda t: -t["cost"])}
             for fu in cf.as_completed(futs):
                 results.append((futs[fu], fu.result()))
+            for fu in cf.as_completed(sfuts):
+                try:
+                    sresults.append((sfuts[fu], fu.result()))
+                except Exception as e:
+                    step_err = "%s: %s" % (type(e).__name__, e)
+            try:
+                images, optab_info = fimg.result()
+            except Exception as e:
+                images, optab_info, step_err = [], {}, "%s: %s" % (type(e).__name__, e)
             try:
                 expect, t_coq = fexp.result()
                 expect_err = None
@@ -556,6 +640,38 @@ def main(tier, seed):
                                      "model": want[k:k + 4], "binary": got[k:k + 4],
                                      "model_runs": len(want), "binary_runs": len(got)})
 
+    # ---- evaluate native single-step traces ------------------------------------------------
+    st = {"tasks": 0, "pairs": 0, "steps": 0, "lib_steps": 0, "mem": 0, "undec": 0, "unk": 0, "out_steps": 0, "xst": 0,
+          "same_output_tasks": 0}
+    step_diffs, step_harness = [], []
+    step_by_variant = {}
+    step_samples = []
+    for t, r in sresults:
+        ev = c19_step.evaluate(t, r)
+        st["tasks"] += 1
+        for k in ("pairs", "steps", "lib_steps", "mem", "undec", "unk", "out_steps", "xst"):
+            st[k] += ev[k]
+        bv = step_by_variant.setdefault(t["variant"], {"tasks": 0, "pairs": 0, "steps": 0, "algos": set()})
+        bv["tasks"] += 1
+        bv["pairs"] += ev["pairs"]
+        bv["steps"] += ev["steps"]
+        bv["algos"].add(t["algo"])
+        if ev["harness"]:
+            step_harness.append({"variant": t["variant"], "class": [t["algo"], t["dir"], t["len"], t["off"]], "batch": t["batch"],
+                                 "problem": ev["harness"], "script": r.get("script")})
+            continue
+        if ev["distinct_outputs"] < 2:
+            st["same_output_tasks"] += 1       # the key did not influence the output: the comparison would be vacuous
+        if ev["diff"] is not None:
+            step_diffs.append((t, ev))
+        if len(step_samples) < 6 and t["variant"].startswith("avx512") and t["algo"] not in [x["class"][0] for x in step_samples]:
+            step_samples.append({"variant": t["variant"], "class": [t["algo"], t["dir"], t["len"], t["off"]], "batch": t["batch"],
+                                 "groups": len(r["segs"]), "steps_per_group": r["segs"][0]["steps"],
+                                 "addresses_per_group": r["segs"][0]["mem"], "distinct_outputs": ev["distinct_outputs"]})
+    for bv in step_by_variant.values():
+        bv["algos"] = sorted(bv["algos"])
+    step_missing = [v for v in common.EXPECTED_VARIANTS if step_by_variant.get(v, {}).get("pairs", 0) == 0]
+
     # ---- verdicts ---------------------------------------------------------------------------
     for f in pres["failed"]:
         log("proof obligation failed:", f)
@@ -595,6 +711,24 @@ def main(tier, seed):
         v.update({"property": PID, "kind": "instruction / data address trace differs between two keys (lackey)", "seed": seed})
         res.violation(v, note=sig, name="trace_%s_%s_%d_%d" % (v["arch"], v["class"][0], v["class"][1], v["class"][2]))
         reported = True
+    seen_sig = set()
+    for t, ev in step_diffs:
+        if len(seen_sig) >= 6:
+            break
+        k = (t["variant"], t["algo"], t["dir"])
+        if k in seen_sig:
+            continue
+        seen_sig.add(k)
+        if step_violation(res, sexe, images, t, ev, seed, is_known):
+            reported = True
+    if step_harness or step_err or step_missing or st["same_output_tasks"]:
+        res.violation({"property": PID, "tie": "d-harness",
+                       "kind": "native single-step tie: a job did not complete, crashed or hung inside the traced region, a host "
+                               "variant could not be executed, or the key did not reach the output",
+                       "details": step_harness[:4], "error": step_err, "variants_without_comparison": step_missing,
+                       "tasks_where_all_keys_gave_the_same_output": st["same_output_tasks"], "seed": seed},
+                      note="step-harness", name="step_harness")
+        reported = True
     if harness_fail:
         res.violation({"property": PID, "kind": "the library job did not complete / the harness crashed or hung under valgrind",
                        "details": harness_fail[:4], "seed": seed}, note="harness", name="harness")
@@ -616,27 +750,50 @@ def main(tier, seed):
     for c in mcases:
         lenhist[c[0]] = lenhist.get(c[0], 0) + 1
     res.coverage.update({
-        "evaluations": mc_cases + cmp_pairs,
-        "distinct_nontrivial": cmp_pairs + mc_nontrivial,
+        "evaluations": mc_cases + cmp_pairs + st["pairs"],
+        "distinct_nontrivial": cmp_pairs + mc_nontrivial + st["pairs"],
         "rule": "one evaluation = one job run under memcheck with its key schedule undefined on one (variant, batch size), or "
                 "one (variant, class, base key, other key) pair whose complete instruction- and data-address sequences were "
-                "compared; non-trivial = a key pair, or a memcheck job with length > 8 (bytes or bits as the algorithm counts)",
+                "compared (lackey: SSE/AVX2 type 1; native single-step: all 7 host variants, a group of 3 jobs in flight counts "
+                "as one pair); non-trivial = a key pair, or a memcheck job with length > 8 (bytes or bits as the algorithm counts)",
         "memcheck_jobs": mc_cases, "memcheck_secret_dependent_reports": mc_err,
         "memcheck_jobs_where_taint_did_not_reach_output": mc_notaint,
         "trace_classes": cmp_classes, "trace_key_pairs_compared": cmp_pairs, "trace_events_compared": seg_events,
         "model_tie_classes_ok": tie_ok, "model_tie_classes_failed": len(tie_fail),
         "algo_histogram_memcheck": lenhist, "classes": [list(c) for c in classes],
         "variants": ["sse:f3 (type 1)", "avx2:f3 (type 1)"], "batch_sizes": [1, 4],
+        "variants_valgrind": ["sse:f3 (type 1)", "avx2:f3 (type 1)"],
+        "variants_covered_natively": sorted(v for v in step_by_variant if step_by_variant[v]["pairs"] > 0),
+        "step_by_variant": step_by_variant, "step_tasks": st["tasks"], "step_key_pairs_compared": st["pairs"],
+        "step_single_steps_traced": st["steps"], "step_steps_inside_library": st["lib_steps"],
+        "step_addresses_recorded": st["mem"], "step_opmask_or_vector_register_reads": st["xst"],
+        "step_undecoded_operand_steps": st["undec"], "step_unknown_instruction_steps": st["unk"],
+        "step_steps_outside_decoded_images": st["out_steps"],
+        "step_classes": sorted(set("%s/%d/%d/%d/b%d" % (t["algo"], t["dir"], t["len"], t["off"], t["batch"]) for t in stasks)),
+        "step_cases": len(stasks), "step_samples": step_samples,
+        "step_operand_tables": {k: v.get("stats") for k, v in optab_info.items()},
+        "step_s": round((t_step[1] or 0) - (t_step[0] or 0), 1),
         "samples": samples, "safe_lookup": safe_lookup, "lookup_sizes_from_source": lookup_sizes, "lib_build_s": round(tb, 1),
         "coq_expectation_s": round(t_coq, 1), "valgrind_s": round(time.time() - t_model0, 1),
         "traces_validated_against_impl": tie_ok,
     })
     res.assumptions = ["valgrind's memcheck propagates definedness precisely enough that every branch on / address from key-derived "
                        "data inside the job call is reported (vector compares, pshufb, aesenc, pclmulqdq are data flow, not addresses)",
-                       "only SSE type 1 and AVX2 type 1 are executed (valgrind 3.19 has no AVX512/GFNI/SHANI)",
-                       "des_key_schedule() (key preparation helper, indexes tables by key bytes) is outside the property"]
-    log("C19: memcheck jobs=%d reports=%d | trace classes=%d pairs=%d | tie ok=%d fail=%d | %.0fs"
-        % (mc_cases, mc_err, cmp_classes, cmp_pairs, tie_ok, len(tie_fail), time.time() - t_start))
+                       "ties (a)-(c) execute only SSE type 1 and AVX2 type 1 (valgrind 3.19 has no AVX512/GFNI/SHANI); the other host "
+                       "variants (sse:f0, sse:f2, avx2:f0, avx512:f0, avx512:f1) are covered by tie (d) alone: exact traces, but for the "
+                       "sampled keys only (2..9 keys per public class; no taint tracking: a dependence that none of the sampled keys "
+                       "exercises is not seen)",
+                       "tie (d) sees architectural control flow and computed effective addresses; it does not see micro-architectural "
+                       "effects, and instructions whose memory operand could not be decoded are only counted (%d steps this run; %d steps "
+                       "at addresses objdump did not list as instructions)" % (st["undec"], st["unk"]),
+                       "in the quick tier the 64-row-scan C paths (DES/3DES/DOCSIS-DES on SSE/AVX2, KASUMI everywhere: the same kernel "
+                       "functions for every variant) are sub-sampled per variant for tie (d) (rotating with variant and seed); the "
+                       "thorough tier runs every class on every variant",
+                       "des_key_schedule() (key preparation helper, indexes tables by key bytes) is outside the property; the IV is public"]
+    log("C19: memcheck jobs=%d reports=%d | trace classes=%d pairs=%d | tie ok=%d fail=%d | native: %d variants %d tasks %d pairs "
+        "%d steps undecoded=%d unknown=%d diffs=%d | %.0fs"
+        % (mc_cases, mc_err, cmp_classes, cmp_pairs, tie_ok, len(tie_fail), len(step_by_variant) - len(step_missing), st["tasks"],
+           st["pairs"], st["steps"], st["undec"], st["unk"], len(step_diffs), time.time() - t_start))
     return res.finish()
 
 
@@ -645,6 +802,25 @@ def replay(path):
     common.build_lib()
     os.makedirs(WORK(), exist_ok=True)
     exe, flt = build_tools()
+    if rp.get("tie") == "d":
+        sexe = build_step_tool()
+        images, _ = step_images(sexe)
+        b = rp.get("batch", 1)
+        t = {"variant": rp["variant"], "algo": rp["algo"], "dir": rp["dir"], "len": rp["len"], "off": rp["off"], "batch": b}
+        pair = list(rp["lines_a"]) + list(rp["lines_b"])
+        wd = WORK()
+        da, db = os.path.join(wd, "replay_a.txt"), os.path.join(wd, "replay_b.txt")
+        r = c19_step.run_step(sexe, rp["variant"], pair, "replay", images, wd, batch=b, dumps=((0, da), (1, db)))
+        segs = r["segs"]
+        same = len(segs) == 2 and "crash" not in segs[0] and "crash" not in segs[1] and \
+            c19_step.seg_key(segs[0]) == c19_step.seg_key(segs[1])
+        out = {"variant": r.get("variant"), "segments": segs, "cases": r["cases"], "equal": same, "dumps": [da, db]}
+        if not same and len(segs) == 2:
+            t2 = dict(t)
+            t2["_lines"] = pair
+            out["first_divergence"] = c19_step.divergence_from_dumps(os.path.realpath(SO()), da, db)
+        print(json.dumps(out, indent=1))
+        return 0 if same else 1
     if rp.get("case") or rp.get("cases"):
         lines = [rp["case"]] if rp.get("case") else rp["cases"]
         r = run_memcheck(rp["arch"], lines, "replay", rp.get("batch", 1), exe)
